@@ -12,7 +12,9 @@ RULE = ("histories over 1-4 keys spread across 1-6 select-list positions and 0-1
         "variable map; rows (GETVAR columns, no SETVAR column) and the caller's final map are compared with the Lean store model "
         "run on the row-major, left-to-right history; non-trivial = a key read after >=2 writes, or across rows/queries")
 
-KEYS = ["k1", "k2", "k3", "weird key"]
+KEYS = ["k1", "k2", "k3", "weird key", "1", "2.5", "true"]
+# how a key is written in SQL: string literals, and non-string keys whose %v text is the key
+KEY_SQL = {"1": ["num", 1], "2.5": num(2.5), "true": ["bool", True]}
 
 
 def gen_query(rnd, qi):
@@ -22,25 +24,28 @@ def gen_query(rnd, qi):
     for i in range(rnd.randint(1, 6)):
         k = rnd.choice(KEYS)
         if rnd.random() < 0.5:
-            src = rnd.choice(["a", "s", "id", "lit", "expr"])
+            # values that are loosely equal (compare.Compare == 0) but of different types must still overwrite
+            src = rnd.choice(["a", "s", "id", "lit", "expr", "null", "astext", "a", "astext", "seven", "seventext", "true", "truetext"])
             items.append(("set", k, src))
         else:
             items.append(("get", k, "g%d_%d" % (qi, i)))
     sel, ops_per_row = [], []
     for it in items:
         if it[0] == "set":
-            arg = {"a": col("a"), "s": col("s"), "id": col("id"), "lit": ["str", "L"],
-                   "expr": ["bin", "plus", col("a"), num(100)]}[it[2]]
-            sel.append(["item", ["func", "", "setvar", [["str", it[1]], arg]], "sv", "sv"])
+            arg = {"a": col("a"), "s": col("s"), "id": col("id"), "lit": ["str", "L"], "null": ["null"],
+                   "expr": ["bin", "plus", col("a"), num(100)], "astext": ["func", "", "concat", [col("a")]],
+                   "seven": num(7), "seventext": ["str", "7"], "true": ["bool", True], "truetext": ["str", "true"]}[it[2]]
+            sel.append(["item", ["func", "", "setvar", [KEY_SQL.get(it[1], ["str", it[1]]), arg]], "sv", "sv"])
         else:
-            sel.append(["item", ["func", "", "getvar", [["str", it[1]]]], it[2], it[2]])
+            sel.append(["item", ["func", "", "getvar", [KEY_SQL.get(it[1], ["str", it[1]])]], it[2], it[2]])
     sel.append(item(col("id")))
     q = select(sel, table("t"))
     ops = []
     for r in rows:
         for it in items:
             if it[0] == "set":
-                v = {"a": r["a"], "s": r["s"], "id": r["id"], "lit": "L", "expr": r["a"] + 100}[it[2]]
+                v = {"a": r["a"], "s": r["s"], "id": r["id"], "lit": "L", "expr": r["a"] + 100, "null": None,
+                     "astext": str(r["a"]), "seven": 7, "seventext": "7", "true": True, "truetext": "true"}[it[2]]
                 ops.append(["set", it[1], enc_val(v)])
             else:
                 ops.append(["get", it[1]])
